@@ -167,5 +167,8 @@ def run(check, ctx):
     # GHASH (the tag of GCM) in both native implementations
     from . import c_ghash
     c_ghash.ghash_tables(check, ctx)
+    # EAX, SIV, CCM and GCM as whole Python compositions over stand-in primitives: ciphertext, tag, receiver
+    from . import aead_compose
+    aead_compose.compose_tables(check, ctx)
     check.undecided.append("equality of the expected tag with the mode's specification beyond the tables: CBC-MAC / OMAC / S2V composition values in Python; "
                            "Poly1305, GHASH and OCB outside their operand tables")
